@@ -117,6 +117,8 @@ def run_quant(ctx):
         except tlc.TLCError as e:
             raise common.Machinery(str(e)) from e
         tot['gen_wall_s'] += time.time() - t0
+        if st['consts'] != [(NFLAT, NITEMS, NWORDS)]:
+            raise common.Machinery(f'universe constants of Quant.tla changed: {st["consts"]}')
         tot['asked'] += st['asked']
         tot['rows'] += len(rows)
         if not rows:
